@@ -27,7 +27,7 @@ def run(ctx):
                 "generated file and of resources/kytea-model.bin must be rejected; non-trivial = model with a dictionary word")
     consts = {"CharWs": {1, 2, 3} if not q else {1, 3}, "TypeWs": {1, 2}, "DictNs": {1, 2, 3} if not q else {1, 3},
               "NDictsSet": {0, 1, 2, 3} if not q else {0, 2, 3}, "CSets": {0, 5, 63, 20} if not q else {5, 63},
-              "TSets": {0, 7, 60, 63} if not q else {7, 60}, "WSets": {0, 3, 15} if not q else {3, 15},
+              "TSets": {0, 7, 60, 63, 451, 199} if not q else {7, 60, 451, 199}, "WSets": {0, 3, 15} if not q else {3, 15},
               "Surplus": 1, "NTagsSet": {0, 1, 2} if not q else {0, 2}}
     res = vlib.tlc("C17-gen-kytea", "Gen_Kytea", vlib.cfg_text(constants=consts, invariants=["WF", "Emit"]), timeout=3000)
     if res["violated"]:
@@ -122,6 +122,35 @@ def tool(ctx, binp, send, obs, cases):
         if p2.returncode == 0 or p2.returncode == 101 or p2.returncode < 0 or os.path.exists(outz):
             ctx.violation(f"C17:tool:truncated:{d['id']}", f"convert_kytea_model on a truncated file: exit {p2.returncode}, output written: {os.path.exists(outz)}; "
                           f"stderr {p2.stderr.decode(errors='replace')[-200:]}", {"kind": "kytea-tool", "case": d}, cls=f"C17:tool:truncated:{p2.returncode}")
+    # a file larger than the tool's read buffer (convert_kytea_model reads through a BufReader): tool = library
+    import sys as _sys
+    _sys.path.insert(0, os.path.join(vlib.VERIF, "lib"))
+    import kytea_writer
+    letters = [ord(c) for c in "abcdefghijklmnopqrstuvwxyz"]
+    big = {"char_w": 3, "type_w": 2, "dict_n": 2, "bias": 9, "n_dicts": 1, "ntags": 0,
+           "char_ngrams": [{"ng": [a, b], "v": [((a * 31 + b * 7 + k * 13) % 2001) - 1000 for k in range(5)]} for a in letters for b in letters],
+           "type_ngrams": [{"ng": [72], "v": [5, -3, 2, 1]}, {"ng": [82, 82], "v": [7, 8, -9]}],
+           "dict_vec": [3, -4, 5, 6, -7, 8], "words": [{"w": [a, 0x3042, b], "mask": 1} for a in letters[:12] for b in letters[:12]]}
+    # several byte alignments (padding in the character map): every kind of field gets to straddle a buffer boundary
+    for pad in range(8 if ctx.quick else 16):
+        bigp = os.path.join(wd, f"big{pad}.bin")
+        open(bigp, "wb").write(kytea_writer.write(dict(big, pad=pad)))
+        lib_big = vlib.run_replay(binp, [{"id": 0, "kind": "kytea", "path": bigp, "probes": [], "cuts": False}], "C17-big")[0]
+        outz = os.path.join(wd, f"big{pad}.zst")
+        for pth in (outz, outz + ".raw"):
+            if os.path.exists(pth):
+                os.remove(pth)
+        p = subprocess.run([exe, "--model-in", bigp, "--model-out", outz], stdout=subprocess.PIPE, stderr=subprocess.PIPE, env=vlib.cargo_env(), timeout=120)
+        got = None
+        if p.returncode == 0 and os.path.exists(outz):
+            vlib.run_harness(binp, ["unzstd", outz, outz + ".raw"], name="unzstd")
+            got = json.loads(vlib.run_harness(binp, ["decode", outz + ".raw"], name="decode"))
+        events.append({"id": 10 ** 6 + pad, "ev": "pair", "ok": p.returncode == 0 and got is not None and lib_big.get("res") == "ok",
+                       "a": canon(lib_big["model"]) if lib_big.get("model") else {"x": 1}, "b": canon(got) if got else {}})
+        ctx.evaluations += 1
+    ctx.add_part(big_file_bytes=os.path.getsize(bigp), big_file_library=lib_big.get("res"), big_file_tool_exit=p.returncode,
+                 big_file_entries=len(big["char_ngrams"]) + len(big["words"]), alignments=8 if ctx.quick else 16)
+    ctx.evaluations += 1
     rej, _ = vlib.validate_trace(ctx, "C17-tool", "Trace_Pair", events)
     for rid in rej:
         ctx.violation(f"C17:tool:differs:{rid}", "the model written by convert_kytea_model differs from the library conversion of the same file",
